@@ -8,7 +8,10 @@
 
 use log::{error, warn};
 use serde::{Deserialize, Serialize};
+#[cfg(not(kani))]
 use std::collections::BTreeMap;
+#[cfg(kani)]
+use crate::kani_models::BTreeMap;
 
 use crate::{
     utils::fround2, BoundaryType, Model, Orientation, SpaceType, ThermalBridgeKind, Tilt, Uuid,
